@@ -66,7 +66,9 @@ func (n *SHMNode) Open(ctx context.Context, req *fuse.OpenRequest, resp *fuse.Op
 	resp.Flags |= fuse.OpenKeepCache
 
 	f, err := n.db.OpenSHM(ctx)
-	if err != nil {
+	if os.IsNotExist(err) {
+		return nil, syscall.ESTALE // stale cached entry, see JournalNode.Open
+	} else if err != nil {
 		return nil, err
 	}
 	return newSHMHandle(n, f), nil
